@@ -455,6 +455,10 @@ def make_app(rng, n: int, app_addr: int) -> bytes:
     if n >= 0x40 and rng.random() < 0.7:  # a few more vector-table like words
         for i in range(2, min(16, n // 4)):
             struct.pack_into("<L", body, 4 * i, (app_addr + rng.randrange(8, n)) | 1)
+    if n >= 0x80 and rng.random() < 0.15:
+        # an application that itself ends in zero bytes (a zero-initialised table at its end): they are part of it
+        k = min(core.pick(rng, [1, 3, 15, 16, 17, 0x48, 0x100]), n - 0x40)
+        body[n - k:] = bytes(k)
     return bytes(body)
 
 
